@@ -743,7 +743,7 @@ def c09(tier, rng, rep, only=None):
     g = flows.GuardRun("arb" if tier == "quick" else "arb_t", decls)
     # the proved decision procedure (Sem/ArbFloatDecide) on every float declaration, before anything is
     # built: `total` is a theorem about every byte string, `panics (b ..)` names a failing input
-    gd = flows.GuardRun("arb_decide", [d for d in decls if d.family() == "float"])
+    gd = flows.GuardRun("arb_decide", [d for d in decls if d.family() in ("float", "str")])
     for d in gd.decls:
         gd.add_ops(d, [("arb_decide", "")])
     gd.run_model()
@@ -775,7 +775,7 @@ def c09(tier, rng, rep, only=None):
         if dec == "total" and impl in ("panic", "hang"):
             # theorem C09_float_decided_total says this declaration's generator returns a valid value for
             # every byte string: no recorded class can excuse a panic here
-            rep.violation("arbitrary(%s) %s on %s, whose generator is PROVED total and valid for every byte string (C09_float_decided_total)"
+            rep.violation("arbitrary(%s) %s on %s, whose generator is PROVED total and valid for every byte string (C09_float_decided_total / C09_str_decided_total)"
                           % (c.arg, "panicked" if impl == "panic" else "did not terminate", d.id), case_payload(c, g, {"decision": dec}))
             continue
         if d.id in witness and c.arg == witness[d.id]:
@@ -799,7 +799,7 @@ def c09(tier, rng, rep, only=None):
                          "rule": "integer / float / string declarations deriving Arbitrary; byte strings: empty, all 1-byte inputs, all-0x00 / all-0xFF of every length up to 64, boundary patterns, encodings of special floats and of case-expanding / white-space characters, random; the real arbitrary() runs under catch_unwind and a watchdog thread; a panic or hang is a violation unless it is in a recorded class AND the model predicts it",
                          "outcome_classes": {"%s/%s" % k: v for k, v in sorted(cls.items())}, "exhaustive": False,
                          "declarations": len(decls),
-                         "float_decision_procedure": dict(dec_stats, rule="arb_float_decide (proved sound: C09_float_decided_total / _panics) evaluated by the model on every float declaration of the corpus; `total` declarations may not panic on any input tried, whatever class they resemble; for `panics` declarations the named input is run on the real generator")})
+                         "decision_procedures": dict(dec_stats, rule="arb_float_decide / arb_str_decide (proved sound: C09_float_decided_total / _panics, C09_str_decided_total / _panics) evaluated by the model on every float and String declaration of the corpus; `total` declarations may not panic on any input tried, whatever class they resemble; for `panics` declarations the named input is run on the real generator")})
     if only is None and (not dec_stats["total"] or not dec_stats["panics"]):
         rep.violation("self-check: the decision procedure never answered %s" % ("total" if not dec_stats["total"] else "panics"), {"kind": "coverage"}, no_input=True)
     for c in g.cases[:: max(1, len(g.cases) // 6)][:6]:
